@@ -233,6 +233,12 @@ def apply(W, op):
             idx = list(range(g._ds.sizes[op["dim"]] if op["dim"] != "n_edge" else g.n_edge))
         sub = g.isel(**{op["dim"]: (idx if not op.get("scalar") else idx[0])})
         return C.canon_grid(sub)
+    if name == "isel_attr":
+        # a derived quantity read on a subset: must not depend on what the PARENT had derived
+        idx = op["idx"]
+        sub = g.isel(**{op["dim"]: idx})
+        v = getattr(sub, op["name"])
+        return C.canon(v)
     if name == "bbox":
         sub = g.subset.bounding_box(tuple(op["lon"]), tuple(op["lat"]), element=op.get("element", "nodes"))
         return C.canon_grid(sub)
